@@ -99,6 +99,13 @@ template <class D> struct AbsValImpl final : AbsVal {
   bool get_tags(const var_t &rgn, const var_t &ref, std::vector<uint64_t> &out) override {
     return d.get_tags(rgn, ref, out);
   }
+  void intrinsic(const std::string &name, const std::vector<var_t> &inputs) override {
+    typename D::variable_or_constant_vector_t in;
+    for (auto &v : inputs)
+      in.push_back(typename D::variable_or_constant_t(v));
+    typename D::variable_vector_t outs;
+    d.intrinsic(name, in, outs);
+  }
   std::string str() const override {
     crab::crab_string_os os;
     D copy(d); // printing may normalise
